@@ -10,12 +10,17 @@ impl Scenario for C04 {
         "C04"
     }
     fn rule(&self) -> String {
-        "Seeded sessions: 1-4 worker threads x 1-3 channels issuing every synchronous operation and its nowait variant; the broker answers each call with unique values (queue names, counts, tags, get content) after a per-reply think time of up to 5 ms, so replies overtake each other across channels, and its output mux interleaves channels. Oracle: k-th synchronous call on a channel returned exactly the k-th reply generated for that channel, not before that reply was on the wire; nowait calls return without any reply. Non-trivial = >=2 channels had calls in flight concurrently (overlapping invoke/return intervals on different channels) or replies were sent in a different cross-channel order than the requests arrived; distinct = schedule trace hash.".to_string()
+        "Seeded sessions: 1-4 worker threads x 1-3 channels issuing every synchronous operation and its nowait variant; the broker answers each call with unique values (queue names, counts, tags, get content) after a per-reply think time of up to 5 ms, so replies overtake each other across channels, and its output mux interleaves channels. Oracle: k-th synchronous call on a channel returned exactly the k-th reply generated for that channel, not before that reply was on the wire; nowait calls return without any reply. Non-trivial = >=2 channels had calls in flight concurrently (overlapping invoke/return intervals on different channels) or replies were sent in a different cross-channel order than the requests arrived; distinct = schedule trace hash. Family 'close-reopen' (channel open and close are synchronous calls too): lifecycle sessions in which worker threads close their channels with Channel::close while the server closes some of them at a random moment (so that the two Close frames may cross and the server's CloseOk for the client's Close arrives late), after which the owner re-opens exactly those ids; oracle: an open_channel(Some(n)) invoked after the client's CloseOk(n) was written returns Ok(n) (its own OpenOk, not the previous incarnation's CloseOk), connection close returns Ok, calls on the other channels get their own replies.".to_string()
     }
     fn plan(&self, thorough: bool, seed: u64) -> Vec<CaseSpec> {
-        plan_random("C04", "rpc", seed, if thorough { 200_000 } else { 12_000 })
+        let mut v = plan_random("C04", "rpc", seed, if thorough { 200_000 } else { 12_000 });
+        v.extend(plan_random("C04", "close-reopen", seed, if thorough { 60_000 } else { 4_000 }));
+        v
     }
     fn run_case(&self, spec: &CaseSpec, text: bool) -> CaseReport {
+        if spec.family == "close-reopen" {
+            return run_close_reopen(spec, text);
+        }
         let mut cs = spec.stream();
         let mut g = GenCfg::default();
         g.max_threads = 4;
@@ -77,4 +82,129 @@ impl Scenario for C04 {
         rep.distinct = rep.trace_hash;
         rep
     }
+}
+
+/// scheduler stamp at which the byte at `offset` of the client->server stream was written
+fn stamp_of_offset(net: &crate::stream::NetState, offset: usize) -> Option<u64> {
+    net.writes.iter().find(|w| w.offset <= offset && offset < w.offset + w.len).map(|w| w.stamp)
+}
+
+fn run_close_reopen(spec: &CaseSpec, text: bool) -> CaseReport {
+    use crate::broker::SentKind;
+    use crate::client::*;
+    use crate::lifecycle::*;
+    use crate::oracles::{decode_c2s, rpc_oracle_skip};
+    use crate::session::OwnerOp;
+    use amq_protocol::frame::AMQPFrame;
+    use amq_protocol::protocol::channel::AMQPMethod as Ch;
+    use amq_protocol::protocol::AMQPClass;
+    let mut cs = spec.stream();
+    let lc = LifeCfg {
+        consumer_ends: vec![ConsumerEnd::ClientCancel, ConsumerEnd::Inherit],
+        channel_ends: vec![ChannelEnd::Normal, ChannelEnd::ServerClose { code: 0, text: String::new() }, ChannelEnd::ServerClose { code: 0, text: String::new() }],
+        conn_ends: vec![ConnEnd::Normal],
+        max_threads: 3,
+        busy_ops: 8,
+        write_faults: false,
+        read_faults: true,
+        heartbeat: 0,
+        explicit_drop_after_server_cancel: false,
+        empty_publish_before_server_cancel: false,
+    };
+    let mut life = gen_life(&mut cs, &lc);
+    let closed_ids: Vec<u16> = life.chans.iter().filter(|c| matches!(c.end, ChannelEnd::ServerClose { .. })).map(|c| c.id).collect();
+    if !closed_ids.is_empty() {
+        life.gen.plan.owner_ops.push(OwnerOp::JoinWorkers);
+        for id in &closed_ids {
+            life.gen.plan.owner_ops.push(OwnerOp::OpenChannel { id: Some(*id), keep: cs.choose("keep_reopened", 2) == 1 });
+        }
+    }
+    let (res, world) = run_generated(&life.gen, cs, text, |_| {});
+    let mut rep = CaseReport::default();
+    fill_common(&mut rep, &res, &world);
+    rep.sample = serde_json::json!({"family": "close-reopen", "plan": plan_summary(&life.gen), "channels": life.chans.iter().map(|c| format!("{:?}", c)).collect::<Vec<_>>(), "script": life.gen.broker.script.iter().map(|s| format!("{:?}", s)).collect::<Vec<_>>()});
+    for p in &res.run.panics {
+        rep.violate("panic", format!("{}@{}", p.thread, p.location), format!("{} panicked: {}", p.thread, p.message));
+    }
+    if let Some((sig, detail)) = hang_sig(&res.run.outcome) {
+        rep.violate("hang", sig, format!("a call never returned although the broker answers every request: {}", detail));
+        return rep;
+    }
+    if rep.inconclusive.is_some() {
+        return rep;
+    }
+    let n = world.net.lock().unwrap();
+    let per = match decode_c2s(&n.c2s) {
+        Ok(p) => p,
+        Err(e) => {
+            rep.inconclusive = Some(format!("stream not decodable: {}", e));
+            return rep;
+        }
+    };
+    let mut closed: Vec<u16> = Vec::new();
+    for s in &world.broker.sent {
+        if let SentKind::ChannelClose { ch, .. } = &s.kind {
+            closed.push(*ch);
+        }
+    }
+    let mut crossed = 0u64;
+    let mut reopened = 0u64;
+    for ch in closed.iter() {
+        if closed.iter().filter(|c| *c == ch).count() > 1 {
+            continue;
+        }
+        let frames = per.get(ch).cloned().unwrap_or_default();
+        // the client's answer to the server's close
+        let ok_at: Option<u64> = frames.iter().find(|(_, _, f)| matches!(f, AMQPFrame::Method(_, AMQPClass::Channel(Ch::CloseOk(_))))).and_then(|(off, len, _)| stamp_of_offset(&n, off + len - 1));
+        let ok_at = match ok_at {
+            Some(s) => s,
+            None => continue,
+        };
+        // did the client's own Close cross it (the broker then answers with a CloseOk of its own)
+        let i = world.broker.sent.iter().position(|s| matches!(&s.kind, SentKind::ChannelClose { ch: c, .. } if c == ch)).unwrap();
+        let answered_crossing = world.broker.sent[i + 1..]
+            .iter()
+            .find_map(|x| match &x.kind {
+                SentKind::Reply { ch: c, method, .. } if c == ch => Some(matches!(method, AMQPClass::Channel(Ch::CloseOk(_)))),
+                _ => None,
+            })
+            .unwrap_or(false);
+        for c in &res.hist.conn {
+            if let ConnRec::OpenChannel { requested: Some(id), invoke, result, for_thread: 0, .. } = c {
+                if id == ch && *invoke > ok_at {
+                    reopened += 1;
+                    crossed += answered_crossing as u64;
+                    let ok = match result {
+                        Ok(got) => got == ch,
+                        Err(e) => e.starts_with("ServerClosedChannel("),
+                    };
+                    if !ok {
+                        rep.violate("open-reply", if answered_crossing { "after-crossing-close" } else { "after-server-close" }, format!("open_channel(Some({})) invoked after the client had answered the server's close of that id with CloseOk returned {:?}{}", ch, result, if answered_crossing { " (the client's own Channel.Close had crossed the server's; the server's CloseOk for it belongs to the previous incarnation)" } else { "" }));
+                        return rep;
+                    }
+                }
+            }
+        }
+    }
+    for c in &res.hist.conn {
+        if let ConnRec::Close { result: Err(e), .. } = c {
+            rep.violate("open-reply", "connection-lost", format!("connection close returned {} although only channels were closed and re-opened", e));
+            return rep;
+        }
+    }
+    for o in &res.hist.ops {
+        if closed.contains(&o.ch_id) || o.result == OpResult::Skipped {
+            continue;
+        }
+        if let OpResult::Err(e) = &o.result {
+            rep.violate("rpc-error", "other-channel", format!("channel {} (not closed by the server): {} failed with {}", o.ch_id, crate::expect::short_op(&o.op), e));
+            return rep;
+        }
+    }
+    rpc_oracle_skip(&mut rep, &res.hist, &world.broker, &closed);
+    rep.count("c04.reopen_after_close_checked", reopened);
+    rep.count("c04.reopen_after_crossing_close_checked", crossed);
+    rep.nontrivial = reopened > 0;
+    rep.distinct = rep.trace_hash;
+    rep
 }
